@@ -12,9 +12,9 @@ from exv.oracle import ChainOracle, hex_rev
 
 KINDS = {
     'C15': None,
-    'C01': {'state', 'utxos', 'lookup_utxos', 'raw-u-rows', 'raw-h-rows', 'raw-h-prefix', 'session-balance',
+    'C01': {'read-never-returns', 'state', 'utxos', 'lookup_utxos', 'raw-u-rows', 'raw-h-rows', 'raw-h-prefix', 'session-balance',
             'session-listunspent'},
-    'C02': {'history', 'history-limit', 'txnum->(hash,height)', 'tx_hashes_at_height', 'txnum-beyond-count',
+    'C02': {'read-never-returns', 'history', 'history-limit', 'txnum->(hash,height)', 'tx_hashes_at_height', 'txnum-beyond-count',
             'raw-history-rows', 'session-history'},
 }
 
@@ -163,7 +163,11 @@ async def compare_index(srv, world, rng, *, label, diffs_out, counters, session=
     orc = orc or ChainOracle(world.active(), world.activation)
     keys = all_keys(world)
     ops = sample_outpoints(orc, rng)
-    ex = await harness.extract(srv.db, keys, ops, raw=raw)
+    try:
+        ex = await harness.extract(srv.db, keys, ops, raw=raw)
+    except harness.ReadStuck as e:
+        diffs_out.append(('read-never-returns', label, str(e)))
+        return orc
     if stash is not None:
         stash['ex'], stash['keys'], stash['ops'] = ex, keys, ops
     d = harness.compare(ex, orc, keys, ops)
@@ -293,6 +297,7 @@ class Engine:
 
     def new_server(self, dbdir):
         c = self.case
+        harness.db_tweak = harness.small_files if c.get('small_files') else None
         extra = {'REORG_LIMIT': self.limit}
         extra.update(c.get('env', {}))
         srv = harness.Server(self.world, dbdir, flushvec=c.get('flushvec'), prefetch=c.get('prefetch', 100),
